@@ -98,7 +98,7 @@ func c13Lexical(t *rapid.T) *DCase {
 	}
 	ns := n(2, 6, "nstmts")
 	for k := 0; k < ns; k++ {
-		switch n(0, 7, "form") {
+		switch n(0, 8, "form") {
 		case 0, 1, 2:
 			stmts = append(stmts, ast.Print(arith(2)))
 		case 3:
@@ -114,6 +114,14 @@ func c13Lexical(t *rapid.T) *DCase {
 			// ... and is a runtime error when evaluated
 			bad := ast.Str(rapid.SampledFrom([]string{"\\q", "x\\", "a\\zb", "\\N"}).Draw(t, "badesc2"))
 			stmts = append(stmts, ast.Print(ast.Str("before")), ast.Print(bad))
+		case 7:
+			// quoted object keys are string literals too
+			key := rapid.SampledFrom([]string{"a\\tb", "q\\\\", "line\\nbreak", "plain", "it's", "two words", ""}).Draw(t, "qkey")
+			stmts = append(stmts, ast.ExprS(ast.Set(ast.Id("qo"), ast.Obj(ast.KVs(key, num()), ast.KV("plain2", num())))),
+				ast.Print(ast.Idx(ast.Id("qo"), ast.Str(key)), ast.Idx(ast.Id("qo"), ast.Str("a\\\\tb"))))
+			if n(0, 3, "badkey") == 0 {
+				stmts = append(stmts, ast.Print(ast.Str("before-bad-key")), ast.ExprS(ast.Set(ast.Id("qo"), ast.Obj(ast.KVs(rapid.SampledFrom([]string{"\\q", "x\\"}).Draw(t, "badqkey"), num())))))
+			}
 		default:
 			stmts = append(stmts, ast.Print())
 		}
@@ -122,6 +130,15 @@ func c13Lexical(t *rapid.T) *DCase {
 	items := []*ast.Node{
 		ast.Func("fnx", []string{"inx"}, ast.Block(ast.Print(), ast.Print(ast.Id("inx")), ast.Return(ast.Bin("-", ast.Id("inx"), ast.Num("1"))))),
 		ast.Rule("pattern", nil, ast.Block(append(stmts, ast.Print(ast.Call(ast.Id("fnx"), ast.Num("3"))))...)),
+	}
+	if n(0, 2, "tailrule") == 0 {
+		// a rule without a body as the last thing in the text: the program ends in a
+		// literal, an identifier or a closing bracket instead of '}'
+		tail := rapid.SampledFrom([]*ast.Node{
+			ast.Bin(">", ast.Dollar(), num()), ast.Bin("<", num(), ast.Dollar()), ast.Bin("==", ast.Dollar(), ast.Idx(ast.Arr(num()), ast.Num("0"))),
+			ast.Bin("!=", ast.Dollar(), ast.Str("x")), ast.Id(vars[0]), ast.Method(num(), "floor"),
+		}).Draw(t, "tailpat").Clone()
+		items = append(items, ast.Rule("pattern", tail, nil))
 	}
 	// half of the programs are written without redundant parentheses (2.5.floor() rather than (2.5).floor())
 	return &DCase{Prog: ast.Prog(items...), Files: []DFile{{Name: "in", Docs: []string{`[7]`}}}, Min: rapid.Bool().Draw(t, "minimalparens")}
@@ -202,7 +219,10 @@ func TestC13(t *testing.T) {
 		feats := map[string]bool{}
 		for k := 0; k < nlay; k++ {
 			lay := gen.NewRandLayout(rt)
-			c.Layouts = append(c.Layouts, ast.BS(r.Join(lay).Src))
+			text := strings.TrimRight(r.Join(lay).Src, " \t\r\n")
+			// what follows the last token: nothing at all, blanks, newlines, a comment
+			text += rapid.SampledFrom([]string{"", "", "\n", " ", "\n\n", "\t", " # c", "\n# c\n", "\r\n"}).Draw(rt, "afterlast")
+			c.Layouts = append(c.Layouts, ast.BS(text))
 			for f := range lay.Features {
 				feats[f] = true
 			}
